@@ -7,6 +7,7 @@
 //   - fxCacheTail           what follows the branch
 //   - fxReleaseResources    the effects of Transaction.ReleaseResources (cache cleared at commit / rollback)
 //   - fxRollbackTail / fxCommitTail   where Commit and Rollback release the resources
+//   - loaderSteps / loaderCaller      the order of mutex, cache lookup, load and store in one call (loader.go)
 //
 // Stdlib only.  Fails loudly (exit 1) on anything it does not recognise.
 package main
@@ -423,6 +424,9 @@ func main() {
 	o.WriteString("def fxReleaseResourcesWithErrors : List String :=\n  " + leanList(rew.out) + "\n\n")
 	o.WriteString("/-- Transaction.Commit, cache-relevant effects only -/\ndef fxCommitCache : List String :=\n  " + leanList(filter(cw.out)) + "\n\n")
 	o.WriteString("/-- Transaction.Rollback, cache-relevant effects only -/\ndef fxRollbackCache : List String :=\n  " + leanList(filter(rbw.out)) + "\n\n")
+	o.WriteString("/-- ONE call of cacheViewFromFile as the steps that touch the loading mutex, the cache and the file, in the ORDER of the\n    source (top-level statements; `defer:` = registered there, runs at `return`) -/\ndef loaderSteps : List String :=\n  " + leanList(loaderSteps(fd, loadIf)) + "\n\n")
+	o.WriteString("/-- its caller loadObjectFromFile: the view handed to the statement is taken out of the cache after the call -/\ndef loaderCaller : List String :=\n  " + leanList(loaderCaller(findFunc(lv, "", "loadObjectFromFile"))) + "\n\n")
+	o.WriteString("/-- what the deferred restore of a FAILED reload puts back into the cache -/\ndef restoredView : String := " + fmt.Sprintf("%q", restoredView(loadIf)) + "\n\n")
 	o.WriteString("end Csvq.Gen\n")
 	fmt.Print(o.String())
 }
